@@ -79,6 +79,11 @@ def SupEv.isTerminal : SupEv → Bool
   | .started _ => false
   | _ => true
 
+/-- `SupervisionEvent::clone_no_data`: what a monitor receives (the boxed state is not cloned). -/
+def SupEv.strip : SupEv → SupEv
+  | .terminated c _ r => .terminated c false r
+  | e => e
+
 def SupEv.who : SupEv → Nat
   | .started c => c | .terminated c _ _ => c | .failed c _ _ => c
 
@@ -171,6 +176,11 @@ inductive Ev
   | supIs (p : Option Nat)         -- observed supervisor after the op (only when it changed)
   | isLocal                        -- the actor is a thread-local actor (first event of such an actor)
   | instant                        -- `spawn_instant*` returned `Ok((actor_ref, start_handle))`
+  /-- feature `monitors`: `notify_supervisor` fanned `e` (a state-less copy) out to the monitors `tg`;
+  `reg` = the monitors registered at that instant (in the model's own trace `tg = reg`; in a trace derived
+  from the implementation `reg` comes from the harness's `monitor`/`unmonitor` ops, `tg` from the observed sends,
+  both sorted, `tg` with repetitions) -/
+  | monFan (reg tg : List Nat) (e : SupEv)
   | treeKill                       -- a supervisor's `terminate()` killed me and my signal port accepted it
   | aborted                        -- `JoinHandle::abort` hit the live task
   | dropped                        -- the spawn future was dropped while alive
@@ -190,6 +200,7 @@ inductive Eff
   | cascade (kids : List Nat)   -- `terminate()`: these children were detached and are to be killed
   | link (p : Nat)              -- `SupervisionTree::link`: insert me into `p`'s child set
   | unlink (p : Nat)            -- `SupervisionTree::unlink`: remove me from `p`'s child set
+  | monSend (m : Nat) (e : SupEv)  -- feature `monitors`: hand the copy `e` to monitor `m`'s supervision port
   deriving DecidableEq, Repr, Inhabited
 
 inductive Out
@@ -225,6 +236,8 @@ structure Actor where
   /-- `SupervisionTree`: my supervisor, my child set (`none` = permanently closed) -/
   sup : Option Nat := none
   kids : Option (List Nat) := some []
+  /-- feature `monitors`: the actors monitoring me (`SupervisionTree::monitors`), ascending, no repetition -/
+  mons : List Nat := []
   /-- registry: my name, and whether the registry maps it to me; process groups I am a member of -/
   name : Option String := none
   nameHeld : Bool := false
@@ -321,6 +334,22 @@ taken and closed, the children are killed. -/
 def handleSignal (a : Actor) : M :=
   ({ a with kids := none }, [.eff (.cascade (a.kids.getD []))])
 
+/-- Insert into an ascending list without repetition. -/
+def insertAsc (m : Nat) : List Nat → List Nat
+  | [] => [m]
+  | x :: l => if m < x then m :: x :: l else if m = x then x :: l else x :: insertAsc m l
+
+/-- `SupervisionTree::notify_supervisor(e)`: with the `monitors` feature a state-less copy goes to every
+monitor first (one `monFan` trace event, one `monSend` effect per monitor), then the event itself goes to
+the supervisor. Without monitors (always so without the feature) this is the supervisor send alone. -/
+def notifyOuts (a : Actor) (e : SupEv) : List Out :=
+  (match a.mons with
+    | [] => []
+    | m :: ms => .ev (.monFan (m :: ms) (m :: ms) e.strip) :: (m :: ms).map (fun x => .eff (.monSend x e.strip)))
+  ++ (match a.sup with
+    | some p => [.ev (.emit p e)]
+    | none => [])
+
 /-- `ActorLifecycleGuard::cleanup(event)`. -/
 def cleanup (a : Actor) (e : Option SupEv) : M :=
   if !a.armed then (a, [])
@@ -328,9 +357,9 @@ def cleanup (a : Actor) (e : Option SupEv) : M :=
     let a1 := a.setStatus .stopping
     let o1 : List Out := [.eff (.cascade (a1.kids.getD []))]
     let a2 : Actor := { a1 with kids := none }
-    let o2 : List Out := match e, a2.sup with
-      | some e, some p => [.ev (.emit p e)]
-      | _, _ => []
+    let o2 : List Out := match e with
+      | some e => notifyOuts a2 e
+      | none => []
     let o3 : List Out := match a2.sup with
       | some p => [.eff (.unlink p)]
       | none => []
@@ -394,10 +423,7 @@ def afterExit (a : Actor) (r : Res) : M :=
   match a.phase, r with
   | .postStart, .ok =>
     let a := a.setStatus .running
-    let o : List Out := match a.sup with
-      | some p => [.ev (.emit p (.started a.id))]
-      | none => []
-    andThen (a, o) listen
+    andThen (a, notifyOuts a (.started a.id)) listen
   | .inMsg, .ok => listen a
   | .inSup, .ok => listen a
   | .postStop rs, .ok =>
@@ -487,6 +513,9 @@ inductive AOp
   | treeTaken                    -- environment: my supervisor's `terminate()` reached me
   | kidAdd (c : Nat)             -- environment: `c` linked itself to me
   | kidDel (c : Nat)             -- environment: `c` unlinked itself
+  | monAdd (m : Nat)             -- feature `monitors`: `m.monitor(me)`
+  | monDel (m : Nat)             -- feature `monitors`: `m.unmonitor(me)`
+  | monDrop (m : Nat)            -- feature `monitors`: a send to the dead monitor `m` failed: it is removed
   | call (k : Nat)               -- `actor.call(..)` first poll: the request is sent
   | pollCall (k : Nat)           -- the caller polls its call future
   | pollWait (w : Nat)           -- somebody polls a `wait()` on this actor
@@ -666,6 +695,9 @@ def Actor.envOp (a : Actor) : AOp → M
   | .unlink p => opUnlink a p
   | .kidAdd c => ({ a with kids := a.kids.map (fun l => if l.contains c then l else l ++ [c]) }, [])
   | .kidDel c => ({ a with kids := a.kids.map (fun l => l.filter (· != c)) }, [])
+  | .monAdd m => ({ a with mons := insertAsc m a.mons }, [])
+  | .monDel m => ({ a with mons := a.mons.filter (· != m) }, [])
+  | .monDrop m => ({ a with mons := a.mons.filter (· != m) }, [.note s!"mondrop {m}"])
   | .call k => ((apiCall a k).1, [.ev (.callSent k (apiCall a k).2),
                                   .ev (.callRet k (if (apiCall a k).2 then .pending else .sendErr))])
   | .pollCall k =>
@@ -774,6 +806,13 @@ def World.effects (fuel : Nat) (w : World) (outs : List WOut) : World × List WO
         | .eff (.cascade kids) => World.cascade fuel w kids
         | .eff (.link p) => w.apply p (.kidAdd src)
         | .eff (.unlink p) => w.apply p (.kidDel src)
+        | .eff (.monSend m e) =>
+          -- best effort: a monitor whose port is gone is removed from the monitor set
+          let r1 := w.apply m (.supArrive e)
+          if (w.get m).portsOpen then r1
+          else
+            let r2 := r1.1.apply src (.monDrop m)
+            (r2.1, r1.2 ++ r2.2)
         | _ => (w, [])
       let r' := World.effects fuel r.1 rest
       (r'.1, r.2 ++ r'.2)
@@ -785,6 +824,8 @@ inductive Op
   | spawnInstant (a : Nat) (sup : Option Nat) (name : Option String) (isLocal : Bool)
   | link (a : Nat) (p : Nat)
   | unlink (a : Nat) (p : Nat)
+  | monitor (m : Nat) (a : Nat)      -- feature `monitors`: `m.monitor(a)`
+  | unmonitor (m : Nat) (a : Nat)
   | pollSpawn (a : Nat)
   | dropSpawn (a : Nat)
   | poll (a : Nat)
@@ -820,6 +861,8 @@ def Op.target (w : World) : Op → Option (Nat × AOp)
   | .spawnInstant a sup name loc => some (a, .spawnInstant sup name (w.nameFree name) loc)
   | .link a p => some (a, .link p (w.supOkOf (some p)))
   | .unlink a p => some (a, .unlink p)
+  | .monitor m a => some (a, .monAdd m)
+  | .unmonitor m a => some (a, .monDel m)
   | .pollSpawn a => some (a, .pollSpawn (w.supOk a))
   | .dropSpawn a => some (a, .dropSpawn)
   | .poll a => some (a, .poll)
@@ -891,6 +934,12 @@ def World.effectsDone (fuel : Nat) (w : World) (outs : List WOut) : Bool :=
         | .eff (.cascade kids) => World.cascade fuel w kids
         | .eff (.link p) => w.apply p (.kidAdd src)
         | .eff (.unlink p) => w.apply p (.kidDel src)
+        | .eff (.monSend m e) =>
+          let r1 := w.apply m (.supArrive e)
+          if (w.get m).portsOpen then r1
+          else
+            let r2 := r1.1.apply src (.monDrop m)
+            (r2.1, r1.2 ++ r2.2)
         | _ => (w, [])
       (match o with
         | .eff (.cascade kids) => World.cascadeDone fuel w kids
@@ -1111,6 +1160,8 @@ structure St where
   /-- the exit request the loop consumed when it entered `post_stop`: the accepted stop (the stop port
   outranks the mailbox, so a stop accepted before wins over a drain marker), else the drain marker -/
   took : Option Reason := none
+  /-- feature `monitors`: the terminal event the monitors got -/
+  fanTerminal : Option SupEv := none
   deriving DecidableEq, Repr, Inhabited
 
 /-- The request that `enter post_stop` consumes, given what was accepted so far. -/
@@ -1146,12 +1197,25 @@ def next (me : Nat) (s : St) : Ev → Except String St
     else if s.terminalEmitted then .error "c04.after-terminal"
     else if e.isTerminal then
       if s.mustStart then .error "c04.missing-started"      -- `ActorStarted` was due first
+      -- the monitors (if any) got the same event: same constructor, same text / reason
+      else if s.fanTerminal.isSome && s.fanTerminal != some e.strip then .error "c04.monitor-event-differs"
       else match classify s e with
       | .ok () => .ok { s with terminalEmitted := true }
       | .error c => .error c
     else if s.startedEmitted then .error "c04.started-twice"
     else if !s.startable then .error "c04.started-not-after-post_start"
     else .ok { s with startedEmitted := true, startable := false, mustStart := false }
+  -- feature `monitors`: every monitor registered at that instant gets the event, exactly once, without
+  -- state; nobody else; at most one terminal event; `ActorStarted` only right after `post_start` returned ok
+  | .monFan reg tg e =>
+    if e.who ≠ me then .error "c04.who"
+    else if tg ≠ reg then .error "c04.monitor-set"
+    else if e.strip ≠ e then .error "c04.monitor-state"
+    else if s.preFailed then .error "c04.event-after-pre_start-failure"
+    else if s.terminalEmitted || s.fanTerminal.isSome then .error "c04.after-terminal"
+    else if e.isTerminal then .ok { s with fanTerminal := some e }
+    else if !s.startable then .error "c04.started-not-after-post_start"
+    else .ok s
   | .enter cb _ =>
     -- positive form: a supervised actor whose `post_start` returned ok reports `ActorStarted`
     -- before any further callback
@@ -1306,6 +1370,7 @@ def next (s : St) : Ev → Except String St
   | .tick _ => if s.failed then .error "residue.callback-after-failed-spawn" else .ok s
   | .exit _ _ => if s.failed then .error "residue.callback-after-failed-spawn" else .ok s
   | .emit _ _ => if s.failed then .error "residue.supervision-event" else .ok s
+  | .monFan _ _ _ => if s.failed then .error "residue.supervision-event" else .ok s
   | .snap sn =>
     if s.failed then
       match clean sn with
